@@ -153,88 +153,98 @@ Definition already_here (s : state) (p c : nat) (l : string) : bool + err :=
   else inl false.
 
 (* Lexical._set_parent (Workflow.parent for workflows), LexicalParent/Composite.add_child,
-   LexicalParent/Composite.remove_child: mutually recursive as in the code; f bounds the
-   nesting of calls *)
+   LexicalParent/Composite.remove_child call each other; each body is written against the
+   functions it calls (RC/AC/SP), the knot is tied below with a bound f on the nesting. *)
+Definition sp_body (RC : state -> nat -> string + nat -> state * result)
+                   (AC : state -> nat -> nat -> option string -> option bool -> state * result)
+                   (s : state) (c : nat) (np : option nat) : state * result :=
+  if is_wf c then                                     (* Workflow.parent setter *)
+    match np with None => (s, Ok) | Some _ => (s, Err EParentMost) end
+  else if oeqb np (par s c) then (s, Ok)              (* new_parent is self._parent *)
+  else if (match np with Some q => negb (is_comp q) | None => false end) then (s, Err EValue)
+  else
+    match (match np with Some q => cyclic s q c | None => None end) with
+    | Some e => (s, Err e)
+    | None =>
+      let '(s1, r1) :=                                (* release from the old parent *)
+        match par s c with
+        | Some o => if val_mem c (kids s o) then RC s o (inr c) else (s, Ok)
+        | None => (s, Ok)
+        end in
+      match r1 with
+      | Err e => (s1, Err e)
+      | _ =>
+        let s2 := set_par s1 c np in                  (* self._parent = new_parent *)
+        match np with
+        | None => (s2, Ok)
+        | Some q => AC s2 q c None None               (* self._parent.add_child(self) *)
+        end
+      end
+    end.
+
+Definition ac_body (SP : state -> nat -> option nat -> state * result)
+                   (s : state) (p c : nat) (lb : option string) (sn : option bool) : state * result :=
+  match cyclic s p c with
+  | Some e => (s, Err e)
+  | None =>
+    if (match par s c with Some o => negb (o =? p) | None => false end) then (s, Err EValue)
+    else
+      let l := match lb with Some l => l | None => lbl s c end in
+      let st := match sn with Some b => b | None => strictof p end in
+      match already_here s p c l with
+      | inr e => (s, Err e)
+      | inl true => (s, Ok)
+      | inl false =>
+        match unique_label s p l st with
+        | inr e => (s, Err e)
+        | inl l' =>
+          if has_slash l' then (s, Err EValue)        (* child._check_label(label) *)
+          else
+            let pop := oeqb (par s c) (Some p) && negb (String.eqb l' (lbl s c)) in
+            if pop && negb (val_mem c (kids s p)) then (s, Err EKey)
+            else
+              let s1 := if pop then set_kids s p (val_pop c (kids s p)) else s in
+              let s2 := set_lbl s1 c l' in            (* child.label = label *)
+              match bd_put l' c (kids s2 p) with      (* self.children[child.label] = child *)
+              | inr e => (s2, Err e)
+              | inl ch => SP (set_kids s2 p ch) c (Some p)   (* child.parent = self *)
+              end
+        end
+      end
+  end.
+
+Definition rc_body (SP : state -> nat -> option nat -> state * result)
+                   (s : state) (p : nat) (x : string + nat) : state * result :=
+  match (match x with
+         | inl l => match key_get l (kids s p) with
+                    | Some c => Some (c, key_pop l (kids s p))
+                    | None => None
+                    end
+         | inr c => if val_mem c (kids s p) then Some (c, val_pop c (kids s p)) else None
+         end) with
+  | None => (s, Err EKey)
+  | Some (c, ch) =>
+    let '(s1, r1) := SP (set_kids s p ch) c None in   (* child_instance.parent = None *)
+    match r1 with
+    | Err e => (s1, Err e)
+    | _ => (set_strt s1 p (remove1 Nat.eqb c (strt s1 p)), Ok)
+    end
+  end.
+
 Fixpoint sp (f : nat) (s : state) (c : nat) (np : option nat) {struct f} : state * result :=
   match f with
   | 0 => (s, Err ERecursion)
-  | S f' =>
-    if is_wf c then
-      match np with None => (s, Ok) | Some _ => (s, Err EParentMost) end
-    else if oeqb np (par s c) then (s, Ok)
-    else if (match np with Some q => negb (is_comp q) | None => false end) then (s, Err EValue)
-    else
-      match (match np with Some q => cyclic s q c | None => None end) with
-      | Some e => (s, Err e)
-      | None =>
-        let '(s1, r1) :=
-          match par s c with
-          | Some o => if val_mem c (kids s o) then rc f' s o (inr c) else (s, Ok)
-          | None => (s, Ok)
-          end in
-        match r1 with
-        | Err e => (s1, Err e)
-        | _ =>
-          let s2 := set_par s1 c np in
-          match np with
-          | None => (s2, Ok)
-          | Some q => ac f' s2 q c None None
-          end
-        end
-      end
+  | S f' => sp_body (rc f') (ac f') s c np
   end
 with ac (f : nat) (s : state) (p c : nat) (lb : option string) (sn : option bool) {struct f} : state * result :=
   match f with
   | 0 => (s, Err ERecursion)
-  | S f' =>
-    match cyclic s p c with
-    | Some e => (s, Err e)
-    | None =>
-      if (match par s c with Some o => negb (o =? p) | None => false end) then (s, Err EValue)
-      else
-        let l := match lb with Some l => l | None => lbl s c end in
-        let st := match sn with Some b => b | None => strictof p end in
-        match already_here s p c l with
-        | inr e => (s, Err e)
-        | inl true => (s, Ok)
-        | inl false =>
-          match unique_label s p l st with
-          | inr e => (s, Err e)
-          | inl l' =>
-            if has_slash l' then (s, Err EValue)
-            else
-              let pop := oeqb (par s c) (Some p) && negb (String.eqb l' (lbl s c)) in
-              if pop && negb (val_mem c (kids s p)) then (s, Err EKey)
-              else
-                let s1 := if pop then set_kids s p (val_pop c (kids s p)) else s in
-                let s2 := set_lbl s1 c l' in
-                match bd_put l' c (kids s2 p) with
-                | inr e => (s2, Err e)
-                | inl ch => sp f' (set_kids s2 p ch) c (Some p)
-                end
-          end
-        end
-    end
+  | S f' => ac_body (sp f') s p c lb sn
   end
 with rc (f : nat) (s : state) (p : nat) (x : string + nat) {struct f} : state * result :=
   match f with
   | 0 => (s, Err ERecursion)
-  | S f' =>
-    match (match x with
-           | inl l => match key_get l (kids s p) with
-                      | Some c => Some (c, key_pop l (kids s p))
-                      | None => None
-                      end
-           | inr c => if val_mem c (kids s p) then Some (c, val_pop c (kids s p)) else None
-           end) with
-    | None => (s, Err EKey)
-    | Some (c, ch) =>
-      let '(s1, r1) := sp f' (set_kids s p ch) c None in
-      match r1 with
-      | Err e => (s1, Err e)
-      | _ => (set_strt s1 p (remove1 Nat.eqb c (strt s1 p)), Ok)
-      end
-    end
+  | S f' => rc_body (sp f') s p x
   end.
 
 (* Composite.replace_child for unconnected nodes (copy_io and the value links have
@@ -279,7 +289,9 @@ Definition step (f : nat) (s : state) (o : op) : state * result :=
       else if is_comp c && String.eqb k "_parent" then (s, Skip)
       else ac f s p c (Some k) None
   | NewNode c l p =>
-      if fresh_ok s c && negb (Nat.eqb p c) then
+      (* a composite built with a non-composite parent= fails inside its own half-built __init__:
+         not an ownership operation, the harness skips it *)
+      if fresh_ok s c && negb (Nat.eqb p c) && negb (is_comp c && negb (is_comp p)) then
         if has_slash l then (s, Err EValue)
         else
           let '(s1, r1) := sp f (set_lbl s c l) c (Some p) in
@@ -332,6 +344,83 @@ Fixpoint run_obs (f : nat) (s : state) (ops : list op) : list obs :=
 
 Definition history_obs (f : nat) (s : state) (ops : list op) : obs :=
   OL (snapshot s :: run_obs f s ops).
+
+(* ---- specification: the tree invariant, "nothing changed", and the guard ------------- *)
+Inductive rooted (s : state) : nat -> Prop :=
+| rooted_root n : par s n = None -> rooted s n
+| rooted_step n p : par s n = Some p -> rooted s p -> rooted s n.
+
+Record Inv (s : state) : Prop := mkInv {
+  (* a composite lists c under k exactly when c names it as parent and carries label k *)
+  inv_agree : forall p k c, In (k, c) (kids s p) <-> (par s c = Some p /\ lbl s c = k);
+  (* sibling labels are unique *)
+  inv_keys : forall p, NoDup (map fst (kids s p));
+  (* ... and never collide with the composite's own attributes *)
+  inv_reserved : forall p k c, In (k, c) (kids s p) -> reserved (kindof p) k = false;
+  (* following parents always ends at a root *)
+  inv_rooted : forall n, rooted s n;
+  (* a workflow never acquires a parent *)
+  inv_wf : forall n, kindof n = Wf -> par s n = None;
+  (* starting nodes are current children (and are not repeated) *)
+  inv_start : forall p c, In c (strt s p) -> exists k, In (k, c) (kids s p);
+  inv_start_nodup : forall p, NoDup (strt s p);
+  (* only composites own anything *)
+  inv_leaf : forall p, kindof p = Leaf -> kids s p = [] /\ strt s p = [];
+  (* every label passed _check_label *)
+  inv_slash : forall n, has_slash (lbl s n) = false
+}.
+
+(* the two states are indistinguishable *)
+Definition same (s s' : state) : Prop :=
+  (forall n, lbl s n = lbl s' n) /\ (forall n, par s n = par s' n) /\
+  (forall n, kids s n = kids s' n) /\ (forall n, strt s n = strt s' n).
+
+(* Guards of the _partial theorems = cause predicates of the known findings K1..K4. *)
+(* K1: c.parent = q, q not yet c's parent, q already has an attribute or child called like c *)
+Definition risky_assign (s : state) (c q : nat) : bool :=
+  negb (is_wf c) && negb (oeqb (Some q) (par s c)) && in_dir s q (lbl s c).
+(* K2: a workflow is offered as a child; K4: an orphan ends up with a label l' such that
+   "/l'/" is a prefix of the adopting composite's path *)
+Definition risky_adopt (s : state) (p c : nat) (l : string) (st : bool) : bool :=
+  is_wf c ||
+  (oeqb (par s c) None &&
+   match unique_label s p l st, path pfuel s p with
+   | inl l', Some pp => prefix ("/" +++ l' +++ "/") pp
+   | _, _ => false
+   end).
+(* K2 / K3: the replacement is a workflow, the composite itself or path-prefix related to it,
+   or the replaced child's label heads the composite's path *)
+Definition risky_replace (s : state) (p o r : nat) : bool :=
+  is_wf r || (match cyclic s p r with Some _ => true | None => false end) ||
+  match path pfuel s p with Some pp => prefix ("/" +++ lbl s o +++ "/") pp | None => false end.
+
+Definition risky (s : state) (o : op) : bool :=
+  match o with
+  | AddChild p c lb sn =>
+      is_comp p && risky_adopt s p c (match lb with Some l => l | None => lbl s c end)
+                               (match sn with Some b => b | None => strictof p end)
+  | SetAttr p k c =>
+      is_comp p &&
+      (if is_comp c && String.eqb k "parent" then risky_assign s p c
+       else if is_comp c && String.eqb k "_parent" then false
+       else risky_adopt s p c k (strictof p))
+  | SetParent c (Some q) =>
+      if is_comp c && negb (is_comp q) then risky_adopt s c q "parent" (strictof c)
+      else risky_assign s c q
+  | ReplaceI p o r => is_comp p && risky_replace s p o r
+  | ReplaceL p l r =>
+      is_comp p && match key_get l (kids s p) with Some o => risky_replace s p o r | None => false end
+  | _ => false
+  end.
+
+Definition is_rec (r : result) : bool := match r with Err ERecursion => true | _ => false end.
+
+(* every operation of the history is outside the guards and within the fuel *)
+Fixpoint safe (f : nat) (s : state) (ops : list op) : bool :=
+  match ops with
+  | [] => true
+  | o :: r => negb (risky s o) && negb (is_rec (snd (step f s o))) && safe f (fst (step f s o)) r
+  end.
 
 End Lex.
 
